@@ -82,6 +82,58 @@ def refound_selftest(ck, mod, work):
         shutil.rmtree(copy, ignore_errors=True)
 
 
+def seed_selftest(ck, mod, work):
+    """thorough tier: every confirmed seeded change of this property that the property's own check reports (seeded/*/meta.json,
+    written by tools/seed_matrix.py) is applied to a scratch copy of the current tree and must be reported again by one of the
+    rules recorded for it.  A patch that no longer applies to the current tree is skipped with a note."""
+    import glob
+    import re
+    import shutil
+    import subprocess
+    for d in sorted(glob.glob(os.path.join(build.VERIF, "seeded", "C*"))):
+        try:
+            meta = json.load(open(os.path.join(d, "meta.json")))
+        except Exception:
+            continue
+        if meta.get("property") != ck.prop or not meta.get("detected_by_own_property_check"):
+            continue
+        rules = set()
+        for x in meta.get("detected_by", []):
+            m = re.match(r"%s\((.*)\)" % ck.prop, x)
+            if m:
+                rules |= set(m.group(1).split(","))
+        sid = os.path.basename(d)
+        copy = os.path.join(work.path, "seed-%s" % sid)
+        os.makedirs(copy)
+        for sub in ("lib", "src", "README.md", "CMakeLists.txt"):
+            src = os.path.join(build.REPO, sub)
+            if os.path.isdir(src):
+                shutil.copytree(src, os.path.join(copy, sub))
+            elif os.path.exists(src):
+                shutil.copy(src, os.path.join(copy, sub))
+        ap = subprocess.run(["patch", "-p1", "-s", "-f", "-d", copy, "-i", os.path.join(d, "patch.diff")], stdout=subprocess.PIPE, stderr=subprocess.PIPE)
+        if ap.returncode != 0:
+            ck.info("selftest", "seed %s: patch does not apply to the current tree; skipped" % sid)
+            shutil.rmtree(copy, ignore_errors=True)
+            continue
+        try:
+            units = build.extract(work, repo=copy, config="omp+avx2")
+            prog = Program(units, "omp+avx2", copy)
+            sub = Check(ck.prop, ck.tier, ck.seed)
+            sub.known = {}
+            sub.work = work
+            mod.run(sub, {"omp+avx2": prog})
+        except Exception as e:       # noqa
+            sub = Check(ck.prop, ck.tier, ck.seed)
+            sub.broken.append(str(e))
+        fired = sorted({v["rule"] for v in sub.violations} & rules) if rules else sorted({v["rule"] for v in sub.violations})
+        ck.controls.append(("seed", sid, bool(fired), True))
+        ck.inst("selftest", "seed %s" % sid, "with the seeded change applied to a scratch copy: reported by %s" % (fired or "nothing"), "omp+avx2")
+        if not fired:
+            ck.broken.append("self-test: seeded change %s (recorded as reported by %s) is no longer reported" % (sid, sorted(rules)))
+        shutil.rmtree(copy, ignore_errors=True)
+
+
 def run_property(pid, tier, seed):
     mod = importlib.import_module("kcheck.rules.%s" % pid.lower())
     ck = Check(pid, tier, seed)
@@ -92,8 +144,9 @@ def run_property(pid, tier, seed):
         ck.work = work
         explanation = mod.run(ck, progs)
         if tier == "thorough":
-            ck.rule("selftest", "every defect repaired by a fix: commit is reported again by its rule when the fix is reverted in a scratch copy")
+            ck.rule("selftest", "every defect repaired by a fix: commit is reported again by its rule when the fix is reverted in a scratch copy, and every confirmed seeded change of this property is reported again when applied to a scratch copy")
             refound_selftest(ck, mod, work)
+            seed_selftest(ck, mod, work)
         return ck.finish(explanation)
     finally:
         work.cleanup()
